@@ -74,6 +74,10 @@ def lossy_casts(fn):
             yield bb, s, False
 
 
+def origin_keys(fn, operand):
+    return set(origin_key(o) for o in origins(fn, operand))
+
+
 def unchecked_arith(fn):
     for bb, idx, s in fn.stmts('assign'):
         rv = s['rv']
@@ -83,6 +87,13 @@ def unchecked_arith(fn):
             yield bb, 'operator %s on %s' % (rv['op'], rv['lt'])
         if rv['k'] == 'unop' and rv['op'] == 'Neg' and int_info(rv['lt']) is not None:
             yield bb, 'operator Neg on %s' % rv['lt']
+        if rv['k'] == 'binop' and rv['op'] in ('Div', 'Rem', 'Shr', 'ShrUnchecked') and int_info(rv['lt']) is not None:
+            # a quotient is exact only together with the matching remainder (a / c with a % c): alone it truncates
+            twin = 'Rem' if rv['op'] == 'Div' else ('Div' if rv['op'] == 'Rem' else None)
+            paired = twin is not None and any(s2['rv']['k'] == 'binop' and s2['rv']['op'] == twin and s2['rv']['b'].get('v') == rv['b'].get('v') and
+                                              origin_keys(fn, s2['rv']['a']) == origin_keys(fn, rv['a']) for _, _, s2 in fn.stmts('assign'))
+            if not paired:
+                yield bb, 'operator %s on %s (truncates: no matching %s of the same value)' % (rv['op'], rv['lt'], twin or 'remainder')
     for bb, t in fn.calls():
         if t.get('x') and in_expansion(t):
             continue
